@@ -4,7 +4,7 @@
    run-time side = Model.rt_bin / rt_un: the C the generator emits, under Base.CInt (Gnu mode),
    with the helper functions taken verbatim from the generated C (Gen.v). *)
 From Base Require Import CInt.
-From C02 Require Import Gen Model ProofsHelpers ProofsHelpersCmp Proofs.
+From C02 Require Import Gen Model ProofsHelpers ProofsHelpersCmp ProofsDiv Proofs.
 Local Open Scope Z_scope.
 
 (* rt_is_modular, + - * and unary minus: for every pair of operand types and ALL integer operand
@@ -24,6 +24,24 @@ Print Assumptions C02_rt_is_modular_mul.
 Theorem C02_rt_is_modular_unm : forall t a, wf_ity t -> rt_un Uunm t a = Rval t (wrap t (- a)).
 Proof. exact rt_unm_modular. Qed.
 Print Assumptions C02_rt_is_modular_unm.
+
+(* rt_is_modular, | ~ &: for every pair of operand types and ALL integer operand values *)
+Theorem C02_rt_is_modular_bitwise : forall lt rt a b, wf_ity lt -> wf_ity rt ->
+  rt_bin Bbor lt rt a b = Rval (rt_type Bbor lt rt) (wrap (rt_type Bbor lt rt) (Z.lor a b)) /\
+  rt_bin Bbxor lt rt a b = Rval (rt_type Bbxor lt rt) (wrap (rt_type Bbxor lt rt) (Z.lxor a b)) /\
+  rt_bin Bband lt rt a b = Rval (rt_type Bband lt rt) (wrap (rt_type Bband lt rt) (Z.land a b)).
+Proof. exact rt_bitops_modular. Qed.
+Print Assumptions C02_rt_is_modular_bitwise.
+
+(* rt_is_modular, // and % when an operand type is signed (the checked helpers scraped from the
+   generated C), operands representable in the result type: stopped with "division by zero" iff
+   b = 0, Lua's floor division (reduced into the type: only min // -1 wraps) / modulo otherwise *)
+Theorem C02_rt_is_modular_idiv_mod : forall lt rt a b, wf_ity lt -> wf_ity rt -> sgn lt || sgn rt = true ->
+  in_range (promote_type lt rt) a -> in_range (promote_type lt rt) b ->
+  rt_bin Bidiv lt rt a b = (if b =? 0 then Rstop 4 else Rval (promote_type lt rt) (wrap (promote_type lt rt) (a / b))) /\
+  rt_bin Bmod lt rt a b = (if b =? 0 then Rstop 4 else Rval (promote_type lt rt) (a mod b)).
+Proof. exact rt_idiv_modular. Qed.
+Print Assumptions C02_rt_is_modular_idiv_mod.
 
 (* rt_is_modular, shifts: every emitted helper computes Nelua's documented shift on the
    representation of its first parameter, for every value of its two parameters ... *)
